@@ -18,8 +18,8 @@ ID = "C06"
 CASES = {"quick": 2400, "thorough": 30000}
 FLOOR = {"quick": 1800, "thorough": 22000}
 FLOOR_COUNTERS = {
-    "quick": {"steps_judged": 80000, "sparse_steps_pruned": 10000, "sparse_steps_pruned_low_switch": 50, "clock_scripted_fits": 3000, "steered_clock_reached_target": 800, "warm_links": 500},
-    "thorough": {"steps_judged": 600000, "sparse_steps_pruned": 80000, "clock_scripted_fits": 15000, "steered_clock_reached_target": 4000, "warm_links": 3000},
+    "quick": {"steps_judged": 80000, "sparse_steps_pruned": 10000, "sparse_steps_pruned_low_switch": 50, "clock_scripted_fits": 3000, "steered_clock_reached_target": 800, "warm_links": 500, "estimators_with_a_past": 2500, "small_unit_cases": 120},
+    "thorough": {"steps_judged": 600000, "sparse_steps_pruned": 80000, "clock_scripted_fits": 15000, "steered_clock_reached_target": 4000, "warm_links": 3000, "estimators_with_a_past": 30000, "small_unit_cases": 1500},
 }
 RULE = (
     "case = point set (uniform / strongly clustered / duplicated / integer lattice / gauss), start int|'random', request "
@@ -53,6 +53,10 @@ def gen(rng, tier, index):
     X = gens.matrix(rng, n, m, kind)
     if kind == "clustered" and rng.random() < 0.5:
         X = X + 100.0 * rng.normal(size=m)  # far from the origin: norms >> distances
+    unit = 1.0
+    if rng.random() < 0.25:  # the same cloud in small / large units (exact power of two)
+        unit = float(2.0 ** int(rng.integers(-26, 14)))
+        X = X * unit
     kw = {}
     if rng.random() < 0.7:
         kw["initialize"] = int(rng.integers(n))
@@ -80,7 +84,10 @@ def gen(rng, tier, index):
             if s["clock"] == "steer":
                 s["target"] = float(gens.pick(rng, TARGETS))
             settings.append(s)
-    return {"X": X, "kind": kind, "kw": kw, "chain": chain, "settings": settings}
+    past = None
+    if rng.random() < 0.3:  # the estimator objects were fitted before, on another cloud of the same shape
+        past = rng.normal(size=X.shape) * unit * float(10.0 ** rng.uniform(-1, 1))
+    return {"X": X, "kind": kind, "kw": kw, "chain": chain, "settings": settings, "unit": unit, "past": past}
 
 
 def _fit_voronoi(case, setting, j):
@@ -93,6 +100,12 @@ def _fit_voronoi(case, setting, j):
         kw["n_trial_calculation"] = setting["n_trial_calculation"]
     spec = {"dir": "sample", "cls": "VoronoiFPS", "kw": kw}
     est = sel.make(spec)
+    if case.get("past") is not None:
+        est.n_to_select = max(2, min(len(X), sel.resolve_n(case["chain"][-1], len(X))))
+        j.lib("fit:earlier-history", est.fit, case["past"])
+        if setting["full_fraction"] is None:
+            est.full_fraction = None  # the calibrated value was written into the parameter (known finding K3 of C09)
+        j.note("estimators_with_a_past")
     tr = rt.GreedyTrace(est)
     clock = None
     if setting.get("clock") and setting["clock"] != "real":
@@ -117,11 +130,13 @@ def _fit_voronoi(case, setting, j):
 def run(case, j):
     X = case["X"]
     n = X.shape[0]
-    j.tag(f"data:{case['kind']}", f"chain:{len(case['chain'])}", f"request:{type(case['chain'][-1]).__name__}")
+    j.tag(f"data:{case['kind']}", f"chain:{len(case['chain'])}", f"request:{type(case['chain'][-1]).__name__}", "unit:1" if case.get("unit", 1.0) == 1.0 else ("unit:small" if case["unit"] < 1 else "unit:large"))
+    if case.get("unit", 1.0) < 1e-4:
+        j.note("small_unit_cases")
     spec0 = {"dir": "sample", "cls": "FPS", "kw": {}}
     D = sel.fps_distance_matrix(spec0, X, None)
     scale = max(float(D.max()), float((X**2).sum(axis=1).max()), 1e-300)
-    tol = 1e-9 * scale
+    tol = 1e-11 * scale
     E = sel.resolve_n(case["chain"][-1], n)
 
     # plain FPS from the same start (reference implementation, itself judged by C02)
